@@ -166,6 +166,33 @@ def connPy : Kind → Py
   | .binary | .varbinary => .bytes
   | .variant | .object | .array | .json => .str
 
+/-- what `cursor.description` reports for a column of the storage type (`types.py:21-85`): Snowflake type name,
+    precision, scale.  The `DECIMAL(p,s)` text DuckDB prints is parsed back to (p, s) — any number of digits each. -/
+inductive SfName | fixed | real | text | boolean | date | time | timestampNtz | timestampTz | binary | variant | unmapped
+  deriving DecidableEq, Repr
+
+def sfDescr : Duck → SfName × Option Nat × Option Nat
+  | .decimal p s => (.fixed, some p, some s)
+  | .bigint | .integer => (.fixed, some 38, some 0)
+  | .double => (.real, none, none)
+  | .varchar => (.text, none, none)
+  | .boolean => (.boolean, none, none)
+  | .date => (.date, none, none)
+  | .time => (.time, some 0, some 9)
+  | .timestamp => (.timestampNtz, some 0, some 9)
+  | .timestamptz => (.timestampTz, some 0, some 9)
+  | .blob => (.binary, none, none)
+  | .json => (.variant, none, none)
+  | .tinyint | .smallint | .float4 | .unknown => (.unmapped, none, none)
+
+/-- what the Snowflake connector's description says for the *declared* column kind (numbers, the part the property's
+    "type the connector uses" depends on: FIXED with the declared precision and scale; integer family = NUMBER(38,0)) -/
+def declDescr : Kind → Option (SfName × Option Nat × Option Nat)
+  | .decimal p s => some (.fixed, some p, some s)
+  | .int | .bigint | .smallint | .tinyint => some (.fixed, some 38, some 0)
+  | .float | .double => some (.real, none, none)
+  | _ => none
+
 /-- Python's `str(Decimal)` switches to scientific notation iff the exponent is positive or the adjusted exponent
     (`exp + digits − 1`) is below −6 (`decimal.py` `__str__`) -/
 def pyDecimalStrSci (digits : Nat) (exp : Int) : Bool := decide (exp > 0) || decide (exp + digits - 1 < -6)
